@@ -58,7 +58,7 @@ theorem pad_noop (i : Inst) (hw : WF i) (h00 : i.D 0 0 = 0) {s : State} (hr : Re
     intro j
     have hdel : delivered i s 0 = 0 := by
       have := hi.usedC
-      simp only [delivered, hi.rem0]; omega
+      simp only [delivered_eq, hi.rem0]; omega
     simp only [env, step, upd_apply, hdel]
     split
     · rename_i h; subst h; omega
